@@ -6,7 +6,8 @@ Driver for C20.  Two jobs:
    request, run the model of the engine with `checkFuelBound` fuel and confirm it does not report fuel exhaustion
    (`C20.check_terminates`);
 2. judge the runtime measurements of the harness (supporting evidence): a call that returned too late / never,
-   or goroutines that did not go away, contradict the property.
+   goroutines that did not go away, or datastore iterators that were still open after the call returned (iterator
+   accounting wrapper of the harness, `it=open:N:kinds`) contradict the property.
 -/
 import OpenFGAVerif.Driver.Proto
 import OpenFGAVerif.Driver.FgaCodec
@@ -28,7 +29,7 @@ def step (c impl : String) : String :=
   if impl.startsWith "setup-error" then "SKIP " ++ (impl.take 80).toString
   else
   match fields c with
-  | "c20" :: cfg :: family :: p1 :: _p2 :: rpc :: _variant :: mode :: ms :: rest =>
+  | "c20" :: cfg :: family :: p1 :: p2 :: rpc :: _variant :: mode :: ms :: rest =>
     match FgaCodec.model rest with
     | none => "SKIP unparsable-model"
     | some (m, rest) =>
@@ -56,7 +57,9 @@ def step (c impl : String) : String :=
           let res := kv toks "res"
           let t := kv toks "t"
           let g := kv toks "g"
-          let what := s!"{rpc} (cfg={cfg}, {family} {p1}, mode={mode} {ms}ms)"
+          let it := kv toks "it"
+          let fault := if family = "res" && p2 ≠ "-" then s!", datastore fault {p2}" else ""
+          let what := s!"{rpc} (cfg={cfg}, {family} {p1}, mode={mode} {ms}ms{fault})"
           if res = "memory-guard" then specViol s!"memory: the heap of the harness process exceeded 10 GB ({kv toks "heapGB"} GB in use) — something started for earlier requests keeps allocating"
           else if res = "skipped" then "SKIP known hang shape (pipeline, repeated direct-assignment leaf) already observed in this run"
           else if res.startsWith "PANIC" then specViol s!"panic escaped {what}: {res}"
@@ -66,8 +69,10 @@ def step (c impl : String) : String :=
             else specViol s!"hang: {what} had not returned long after its deadline; stacks {kv toks "stk"}"
           else if t = "late" then specViol s!"late: {what} returned later than deadline + 15 s slack (three times in a row)"
           else if g.startsWith "leak" then specViol s!"goroutine {g} after {what} returned (repeated on re-run); parked in {kv toks "stk"}"
+          else if it.startsWith "open" then
+            specViol s!"iterator leak: datastore iterators still open 3 s after {what} returned (count:kinds = {(it.drop 5).toString})"
           else if t = "ontime" && (g = "ok" || g = "lazy") then
-            let interrupted := res = "deadline" || res = "canceled" || res = "E4004" || res = "E2058"
+            let interrupted := res = "deadline" || res = "canceled" || res = "E4004" || res = "E2058" || (fault ≠ "" && !(res.startsWith "ok"))
             let big := family != "rand" && (p1.toNat?.getD 0) ≥ 10
             ok (s!"{rpc}-{mode}-" ++ (if interrupted then "interrupted" else if res.startsWith "ok" then "answered" else "error"))
               (interrupted || big)
